@@ -14,7 +14,9 @@ import (
 	"go/types"
 	"os"
 	"path/filepath"
+	"slices"
 	"sort"
+	"strconv"
 	"strings"
 	"sync"
 	"text/template/parse"
@@ -377,14 +379,117 @@ func (ti *tmplInfo) instantiateRaw(cfg tmplConfig) (string, []int, error) {
 	return sb.String(), lineMap, nil
 }
 
-// defaultImports mirrors what Compile adds (checked separately by C08 R-imports).
+// defaultImports: the imports Compile adds itself, read from Compile's own
+// AddImport("…") calls (those under `if t.Ast` only for Ast). C08 R-imports and
+// R-import-order check separately how the list is treated; here it only has to
+// be the list the real generator would hand to the template, so that a runtime
+// that starts using another package (and imports it) still type-checks.
 func defaultImports(ast bool) []string {
-	imps := []string{"fmt", "slices", "strconv"}
-	if ast {
-		imps = append(imps, "io", "os", "bytes")
+	imps := compileImports(ast)
+	if len(imps) == 0 {
+		imps = []string{"fmt", "slices", "strconv"}
+		if ast {
+			imps = append(imps, "io", "os", "bytes")
+		}
 	}
 	sort.Strings(imps)
-	return imps
+	return slices.Compact(imps)
+}
+
+var (
+	compileImportsOnce sync.Once
+	compileImportsAlways, compileImportsAst, compileImportsNoAst []string
+)
+
+func compileImports(withAst bool) []string {
+	compileImportsOnce.Do(func() {
+		r := theRepo
+		if r == nil {
+			return
+		}
+		pkg := r.Pkgs[modPath+"/tree"]
+		if pkg == nil {
+			return
+		}
+		for _, f := range pkg.Syntax {
+			for _, d := range f.Decls {
+				fd, ok := d.(*ast.FuncDecl)
+				if !ok || fd.Name.Name != "Compile" || fd.Body == nil {
+					continue
+				}
+				var walk func(n ast.Node, cond int)
+				mentionsAst := func(e ast.Expr) (bool, bool) { // (mentions .Ast, negated)
+					found, neg := false, false
+					ast.Inspect(e, func(n ast.Node) bool {
+						switch x := n.(type) {
+						case *ast.UnaryExpr:
+							if x.Op == token.NOT {
+								if se, ok := x.X.(*ast.SelectorExpr); ok && se.Sel.Name == "Ast" {
+									found, neg = true, true
+									return false
+								}
+							}
+						case *ast.SelectorExpr:
+							if x.Sel.Name == "Ast" {
+								found = true
+							}
+						}
+						return true
+					})
+					return found, neg
+				}
+				walk = func(n ast.Node, cond int) { // cond: 0 always, 1 only with Ast, 2 only without
+					ast.Inspect(n, func(m ast.Node) bool {
+						switch x := m.(type) {
+						case *ast.FuncLit:
+							return false
+						case *ast.IfStmt:
+							if x == n {
+								return true
+							}
+							if is, neg := mentionsAst(x.Cond); is {
+								a, b := 1, 2
+								if neg {
+									a, b = 2, 1
+								}
+								if cond == 0 {
+									walk(x.Body, a)
+									if x.Else != nil {
+										walk(x.Else, b)
+									}
+									return false
+								}
+							}
+						case *ast.CallExpr:
+							if se, ok := x.Fun.(*ast.SelectorExpr); ok && se.Sel.Name == "AddImport" && len(x.Args) == 1 {
+								if lit, ok := x.Args[0].(*ast.BasicLit); ok && lit.Kind == token.STRING {
+									if v, err := strconv.Unquote(lit.Value); err == nil {
+										switch cond {
+										case 0:
+											compileImportsAlways = append(compileImportsAlways, v)
+										case 1:
+											compileImportsAst = append(compileImportsAst, v)
+										default:
+											compileImportsNoAst = append(compileImportsNoAst, v)
+										}
+									}
+								}
+							}
+						}
+						return true
+					})
+				}
+				walk(fd.Body, 0)
+			}
+		}
+	})
+	out := append([]string{}, compileImportsAlways...)
+	if withAst {
+		out = append(out, compileImportsAst...)
+	} else {
+		out = append(out, compileImportsNoAst...)
+	}
+	return out
 }
 
 // modelConfig builds the representative data for a boolean valuation.
